@@ -432,6 +432,24 @@ def run(repo: Repo, chk: Check):
     parts = [child_output_parts(c.args[0], c) for c in loads if c.args]
     okl = len(loads) >= 2 and any("__result" in s for s in srcs) and any(p_ == {0} for p_ in parts)
     chk.judge("R12.c", "utils:eval_constexpr:both transports are read with json.loads", okl, f"json.loads applied to {srcs}", {"readers": srcs}, wu)
+    # the decoder is the plain one: a hook (parse_int=float, parse_float=Decimal, object_hook, cls) turns the function's value into another one
+    hooks = sorted({k.arg or "**" for c in loads for k in c.keywords if k.arg in (None, "parse_int", "parse_float", "parse_constant", "object_hook", "object_pairs_hook", "cls")})
+    chk.judge("R12.c", "utils:eval_constexpr:the result is decoded without conversion hooks", not hooks,
+              f"json.loads is called with {hooks}: the literal differs from the value the function returned (parse_int=float rounds integers above 2**53)", {"hooks": hooks}, wu)
+    # the child is a plain interpreter: no switch that changes what the function's source means (-O / -OO strip assert and set __debug__ to False)
+    for c in ast.walk(ev):
+        if isinstance(c, ast.Call) and norm(c.func).endswith("Popen") and c.args and isinstance(c.args[0], (ast.List, ast.Tuple)):
+            flags = [e_.value for e_ in c.args[0].elts[1:-1] if isinstance(e_, ast.Constant) and isinstance(e_.value, str) and e_.value.startswith("-") and e_.value != "-c"]
+            other = [norm(e_) for e_ in c.args[0].elts[1:-1] if not (isinstance(e_, ast.Constant) and isinstance(e_.value, str))]
+            changing = [f_ for f_ in flags if f_.lstrip("-")[:1] == "O" or f_ in ("-X", "-W", "-d") or "O" in f_[1:] and not f_.startswith("--")]
+            unknown_flags = [f_ for f_ in flags if f_ not in changing and f_ not in ("-s", "-B", "-u", "-q", "-E")]
+            if other or unknown_flags:
+                chk.unresolved("R12.c", "utils:eval_constexpr:the child interpreter runs the source as Python means it",
+                               f"interpreter arguments {other + unknown_flags} were not classified", wu)
+            else:
+                chk.judge("R12.c", "utils:eval_constexpr:the child interpreter runs the source as Python means it", not changing,
+                          f"the child is started with {changing}: under -O 'assert' statements are removed and __debug__ is False, so a constexpr function that uses them "
+                          f"returns another value than the same function compiled as ordinary code", {"flags": flags}, wu)
     # what is returned is what was read (and cached)
     rets = [r for r in ast.walk(ev) if isinstance(r, ast.Return) and r.value is not None]
     def ret_kind(e, at, depth=0):
